@@ -25,8 +25,9 @@ Fixpoint nested_call (flags : list bool) (checks : list bool) (result : outcome 
   | _, _ => result
   end.
 
-(* ---- write-mode archives: close() = if not closed: try write finally close temp; then
-        super().close() sets _closed (only reached when write did not raise) ---- *)
+(* ---- write-mode archives: close() = try: (if not closed: try write finally close temp)
+        finally: super().close() sets _closed -- also when the write raised (repaired in /repo 4c92948;
+        before, _closed stayed false after a failed write and every later close() wrote again) ---- *)
 Record arch := { a_closed : bool; a_temp_closed : bool; a_writes : nat; a_complete : nat }.
 
 Definition arch_init : arch := {| a_closed := false; a_temp_closed := false; a_writes := 0; a_complete := 0 |}.
@@ -36,7 +37,7 @@ Definition arch_close (write_ok : bool) (a : arch) : arch * outcome unit :=
   if a_closed a then (a, Ok tt)
   else
     let ok := write_ok && negb (a_temp_closed a) in
-    let a1 := {| a_closed := ok; a_temp_closed := true; a_writes := S (a_writes a);
+    let a1 := {| a_closed := true; a_temp_closed := true; a_writes := S (a_writes a);
                  a_complete := if ok then S (a_complete a) else a_complete a |} in
     (a1, if ok then Ok tt else Crash RawOSError).
 
